@@ -19,6 +19,7 @@ mod fault;
 mod wl;
 mod world;
 mod minimise;
+mod model;
 mod readers;
 mod rng;
 mod stats;
